@@ -137,6 +137,9 @@ def check_apply(run, fx, ev):
                     for dec, res, _ in paths:
                         okp = True
                         for cond, choice in dec:
+                            if cond.startswith("debug_assertion["):
+                                okp &= (choice is False)        # the path on which the debug assertion holds
+                                continue
                             if "is_exact" in cond:
                                 okp &= (choice == exact)
                             elif "compare_remainder" in cond:
@@ -155,50 +158,83 @@ def check_apply(run, fx, ev):
     run.exhaustive_tables.append("apply_unsigned_rounding_mode (5 modes x 12 atom valuations)")
 
 
+def _spec_round(x, d, mode):
+    """RoundNumberToIncrement(x, d, mode) in exact arithmetic (x, d Fractions or ints)"""
+    from fractions import Fraction
+    x, d = Fraction(x), Fraction(d)
+    neg = x < 0
+    q = abs(x) / d
+    r1 = q.numerator // q.denominator
+    frac = q - r1
+    pos = {"Ceil": "inf", "Floor": "zero", "Expand": "inf", "Trunc": "zero", "HalfCeil": "half-inf", "HalfFloor": "half-zero",
+           "HalfExpand": "half-inf", "HalfTrunc": "half-zero", "HalfEven": "half-even"}
+    negm = dict(pos, Ceil="zero", Floor="inf", HalfCeil="half-zero", HalfFloor="half-inf")
+    um = (negm if neg else pos)[mode]
+    if frac == 0:
+        r = r1
+    elif um == "zero":
+        r = r1
+    elif um == "inf":
+        r = r1 + 1
+    elif frac * 2 < 1:
+        r = r1
+    elif frac * 2 > 1:
+        r = r1 + 1
+    elif um == "half-zero":
+        r = r1
+    elif um == "half-inf":
+        r = r1 + 1
+    else:
+        r = r1 if r1 % 2 == 0 else r1 + 1
+    out = (-r if neg else r) * d
+    return out
+
+
 def check_rounder(run, fx, ev):
     rs = fx["temporal_rs"]
-    rule = "R2.rounder-sign"
-    run.rule(rule, "IncrementRounder: sign = (number >= 0); round() asks get_unsigned_round_mode with that sign and "
-                   "negates the rounded magnitude iff the sign is negative, then multiplies by the increment")
+    rule = "R12.round-number-to-increment"
+    run.rule(rule, "IncrementRounder::from_signed_num(x, increment)?.round(mode) equals RoundNumberToIncrement(x, increment, mode): "
+                   "folded end to end (sign handling, unsigned mode selection, the decision procedure, the Roundable arithmetic, "
+                   "the final multiplication) for both instantiations, every rounding mode, both signs and every residue and "
+                   "quotient parity of an even, an odd and the unit increment - the finite case structure of the algorithm")
     rnd = find_trait_fn(rs, "temporal_rs::rounding::IncrementRounder<T>", "rounding::Round", "round")
     mk = rs.fn1("IncrementRounder::<T>::from_signed_num")
     if rnd is None or mk is None:
         run.anchor_missing(rule, "IncrementRounder", "IncrementRounder::round / from_signed_num not found")
         return
-    ev2 = H.Evaluator(fx)
-    ev2.inline = lambda p: False
-    R = "temporal_rs::rounding::IncrementRounder"
-    for sign in (True, False):
-        me = H.S(R, (("sign", sign), ("dividend", H.Sym("param", ("dividend",))), ("divisor", H.Sym("param", ("divisor",)))))
-        res = ev2.call_fn(rnd, [me, H.Sym("param", ("mode",))])
-        tr = list(ev2.trace)
-        gum = [c for c in tr if c.parts[0].endswith("get_unsigned_round_mode")]
-        ok_gum = len(gum) == 1 and gum[0].parts[1][1] is sign or (len(gum) == 1 and gum[0].parts[1][1] == sign)
-        run.check(ok_gum, rule, "unsigned-mode-sign/%s" % sign, "get_unsigned_round_mode(mode, sign=%s)" % sign,
-                  "round() does not pass its own sign to get_unsigned_round_mode: %s" % [show(c) for c in gum], rnd.loc)
-        negs = [x for x in walk(res) if isinstance(x, H.Sym) and (x.what in ("un-",) or
-                (x.what == "call" and x.parts[0].endswith("Neg::neg")))]
-        run.check((len(negs) == 1) == (not sign), rule, "negate-iff-negative/%s" % sign,
-                  "sign=%s: %d negation(s) of the rounded magnitude" % (sign, len(negs)),
-                  "sign=%s: result has %d negations, expected %d: %s" % (sign, len(negs), 0 if sign else 1, show(res)),
-                  rnd.loc)
-        apply_calls = [c for c in tr if "apply_unsigned_rounding_mode" in c.parts[0]]
-        okap = len(apply_calls) == 1 and [show(a) for a in apply_calls[0].parts[1][:2]] == ["$dividend", "$divisor"]
-        run.check(okap, rule, "apply-args/%s" % sign, "apply(dividend, divisor, unsigned mode)",
-                  "round() does not pass (dividend, divisor) to apply_unsigned_rounding_mode", rnd.loc)
-        mul = isinstance(res, H.Sym) and res.what == "bin*"
-        run.check(mul and any(show(x) == "$divisor" for x in walk(res.parts[1]) if True), rule,
-                  "times-increment/%s" % sign, "result = rounded quotient * divisor",
-                  "round() does not multiply the rounded quotient by the divisor: %s" % show(res), rnd.loc)
-    # from_signed_num: sign = number >= ZERO
-    res = ev2.call_fn(mk, [H.Sym("param", ("number",)), H.Sym("param", ("increment",))])
-    rec = [x for x in walk(res) if isinstance(x, H.S)]
-    sgn = show(H.sfield(rec[0], "sign")) if rec else "?"
-    okc = rec and isinstance(H.sfield(rec[0], "sign"), H.Sym) and H.sfield(rec[0], "sign").what in ("bin>=",) \
-        and show(H.sfield(rec[0], "sign").parts[0]) == "$number"
-    run.check(okc, rule, "sign-definition", "sign = %s" % sgn, "sign is not `number >= ZERO`: %s" % sgn, mk.loc)
-    okd = rec and show(H.sfield(rec[0], "dividend")) == "$number"
-    run.check(okd, rule, "dividend-is-number", "dividend = number", "dividend is not the number being rounded", mk.loc)
+    from fractions import Fraction
+    modes = [vname(m) for m in (ev.enum_values(RMODE) or [])]
+    if len(modes) != 9:
+        run.anchor_missing(rule, "modes", "expected the 9 rounding modes, found %s" % modes)
+        return
+    cells = 0
+    for tyname, conv, grid in (("i128", int, [(a, d) for d in (10, 3, 1) for a in range(0, 3 * d + 1)]),
+                               ("f64", float, [(Fraction(k, 2) * d, d) for d in (1, 10) for k in range(0, 9)])):
+        for mode in modes:
+            bad, und = [], 0
+            for a, d in grid:
+                for sgn in ((1, -1) if a else (1,)):
+                    x = sgn * a
+                    r = fold(H.Evaluator(fx), mk, [conv(x), d])
+                    if r[0] != "ok":
+                        und += 1
+                        continue
+                    got = fold(H.Evaluator(fx), rnd, [r[1], H.V(RMODE + "::" + mode, ())])
+                    if got[0] != "val" or not isinstance(got[1], (int, float)) or isinstance(got[1], bool):
+                        und += 1
+                        continue
+                    cells += 1
+                    want = _spec_round(x, d, mode)
+                    if Fraction(got[1]) != want:
+                        bad.append("round(%s, %s, %s) = %s, RoundNumberToIncrement gives %s" % (x, d, mode, got[1], want))
+            key = "%s/%s" % (tyname, mode)
+            if und and not bad:
+                run.ok(rule, key, "%d cell(s) do not fold: not decided" % und, rnd.loc, nontrivial=False)
+            else:
+                run.check(not bad, rule, key, "%s: every residue / parity / sign cell equals the specification" % mode,
+                          "IncrementRounder<%s>: %s" % (tyname, "; ".join(bad[:4])), rnd.loc)
+    run.analysed["round_number_to_increment_cells"] = cells
+    run.exhaustive_tables.append("RoundNumberToIncrement (9 modes x residues x quotient parity x sign, i128 and f64)")
 
 
 def check_defaults(run, fx, ev):
